@@ -8,7 +8,7 @@ RULE = ('every string of <= L tokens (L=4 quick over 19 tokens, L=5 thorough ove
         '"http://h/", HTTP/1.0, 16 x "a" [, a POST request line, ":"]) is delivered to Http1::RequestParser with the '
         'client_side.cc calling protocol once in one piece and once for EVERY 2-piece split, under relaxed_header_parser '
         'on/off x request_header_max_size 64/36; the complete parser state (stage, status, method, URI, version, mime block, '
-        'parsed bytes, remaining+undelivered bytes, return value) must be equal (consumed bytes are not compared between two rejections: the caller discards its buffer then); inputs of <= 7 (quick) / 9 (thorough) bytes '
+        'parsed bytes, remaining+undelivered bytes, return value) must be equal (consumed bytes are not compared between two rejections: the caller discards its buffer then); inputs of <= 8 (quick) / 10 (thorough) bytes '
         'are also run under all 2^(n-1) segmentations. non-trivial = inputs whose one-shot parse, in at least one of the four '
         'configurations, got further than "no LF seen yet" / "first byte is not a method character" / "only empty lines"')
 ASSUME = ['complete-state equality of every 2-piece delivery with the one-shot delivery composes by induction to every '
@@ -22,14 +22,7 @@ MIN = {'accepted-1.x': 20, 'accepted-0.x': 20, 'rejected-400:after-method': 20, 
        'need-more:mime': 20}
 
 
-# seq.build() only runs "make tests/testHttp1Parser" in src/, which does not rebuild the sub-directory libraries the
-# parser lives in; make them first (innermost first) so that the harness links the code of the *current* tree
-LIBS = ['src/base:libbase.la', 'src/sbuf:libsbuf.la', 'src/parser:libparser.la', 'src/anyp:libanyp.la',
-        'src/http/one:libhttp1.la', 'src/http:libhttp.la']
-
-
 def _build(ctx):
-    ctx.vbuild(*LIBS)
     return seq.build(ctx, 'tests/testHttp1Parser', ['C21_req.cc'])
 
 
